@@ -90,6 +90,13 @@ func (w *Writer) Emit(v any) {
 	w.w.WriteByte('\n')
 }
 
+// Flush writes buffered lines to the file.
+func (w *Writer) Flush() {
+	w.mu.Lock()
+	defer w.mu.Unlock()
+	w.w.Flush()
+}
+
 func (w *Writer) Close() error {
 	w.mu.Lock()
 	defer w.mu.Unlock()
